@@ -1,6 +1,8 @@
 import NfcVerif.Model.PeerDep
 import NfcVerif.Model.PeerPax
 import NfcVerif.Model.PeerDispatch
+import NfcVerif.Model.PeerT3Gen
+import NfcVerif.Model.PeerSnep
 /-!
 Line protocol of the C07 model driver
 
@@ -14,6 +16,13 @@ Line protocol of the C07 model driver
   sap <f39><cc> <addr> <name|-> <socks> <octets>  -> hang | exc <Name> | drop | ok <socks> send=<pdus> sdp=<pdus>:<nres>
         socks: k:st:addr:peer:bound:rq:rbuf:rmiu:vs:vsa:vr:vra joined by ','  (k r|l|d, st 0..6)
   flow <site> <Exc name>                -> exchange=<..> run=<..> connect=<..>
+  t3g <idm>/<pmm>/<sys> <code:mode,..|-> <store> <cmd>   -> as `t3`; services from the table (mode rw|ro|even|deflt)
+  cardsess <idm>/<pmm>/<sys> <table> <store> <first cmd> <ev,ev,..|none>   -> returns|raises <Name> sent=<rsp|none,..>
+        `_card_connect` with the emulation: ev = command octets | T | X | B (Timeout/Transmission/BrokenLink from the exchange)
+  snepreq <table> <request>             -> ok <response> | exc <Name>          process_snep_request
+  snepsrv <miu> <maxacc> <table> <frag,frag,..|none>   -> ok <sent,sent,..> | exc <Name>   SnepServer._serve
+        table: <g|p>:<octets>=<D|V|E|c<code>|d<octets>> joined by ',' ('-' = empty): what decoder+application+encoder do
+  snepcli <get|put> <acc> <frag,..|none> -> ok none|true|false|data <octets>|snep <code> | exc <Name>
   table                                 -> the handler tables as text
 -/
 open NfcVerif NfcVerif.Peer NfcVerif.NfcDep
@@ -129,8 +138,138 @@ def tableText : String :=
   s!"llc.exchange catches [{names (fun e => Peer.isComm e || isPduError e)}] connect catches [{names connectCatches}] " ++
   s!"run-loop io [{names isIO}] card continue [{names (fun e => Peer.isComm e && e != .brokenLink)}]"
 
+/-! ## general Type 3 Tag emulation, SNEP -/
+
+def t3gCmd (ids tab store cmd : String) : String :=
+  match ids.splitOn "/", parseHex store, parseHex cmd with
+  | [i, p, y], some store, some cmd =>
+    match parseHex i, parseHex p, parseHex y with
+    | some idm, some pmm, some sys =>
+      let entries : Option (List (Nat × PeerT3.Mode)) :=
+        if tab = "-" then some [] else
+        (tab.splitOn ",").mapM fun ent =>
+          match ent.splitOn ":" with
+          | [c, m] =>
+            match c.toNat?, (if m = "rw" then some PeerT3.Mode.rw else if m = "ro" then some .ro
+                             else if m = "even" then some .even else if m = "deflt" then some .deflt else none) with
+            | some c, some m => some (c, m)
+            | _, _ => none
+          | _ => none
+      match entries with
+      | some tab =>
+        let e : PeerT3.Emu Bytes := ⟨idm, pmm, sys, PeerT3.storeSvc tab⟩
+        (match PeerT3.processCommandR e store cmd with
+         | .error x => "exc " ++ x.name
+         | .ok (r, st, log) =>
+           "ok " ++ (match r with | none => "none" | some b => toHex b) ++ " store=" ++ toHex st
+             ++ " calls=" ++ joinC (log.map showCall))
+      | none => "bad-op"
+    | _, _, _ => "bad-op"
+  | _, _, _ => "bad-op"
+
+def parseT3Tab (tab : String) : Option (List (Nat × PeerT3.Mode)) :=
+  if tab = "-" then some [] else
+  (tab.splitOn ",").mapM fun ent =>
+    match ent.splitOn ":" with
+    | [c, m] =>
+      match c.toNat?, (if m = "rw" then some PeerT3.Mode.rw else if m = "ro" then some .ro
+                       else if m = "even" then some .even else if m = "deflt" then some .deflt else none) with
+      | some c, some m => some (c, m)
+      | _, _ => none
+    | _ => none
+
+def showSent (l : List (Option Bytes)) : String :=
+  if l.isEmpty then "-" else ",".intercalate (l.map fun o => match o with | none => "none" | some b => toHex b)
+
+/-- what `send_response` was called with, turn by turn (the loop of `PeerT3.cardLoop` with the responses kept) -/
+def cardTrace (e : PeerT3.Emu Bytes) : List PeerT3.CardEv → Bytes → Option Bytes → List (Option Bytes) → List (Option Bytes)
+  | [], _, _, sent => sent
+  | ev :: rest, s, rsp, sent =>
+    match ev with
+    | .err x => if x = .brokenLink then sent ++ [rsp] else if Peer.isComm x then cardTrace e rest s none (sent ++ [rsp]) else sent ++ [rsp]
+    | .cmd c =>
+      match PeerT3.processCommandR e s c with
+      | .ok r => cardTrace e rest r.2.1 r.1 (sent ++ [rsp])
+      | .error _ => sent ++ [rsp]
+
+def cardCmd (ids tab store first evs : String) : String :=
+  match ids.splitOn "/", parseT3Tab tab, parseHex store, parseHex first with
+  | [i, p, y], some tab, some store, some first =>
+    match parseHex i, parseHex p, parseHex y with
+    | some idm, some pmm, some sys =>
+      let evl : Option (List PeerT3.CardEv) :=
+        if evs = "none" then some [] else
+        (evs.splitOn ",").mapM fun t =>
+          if t = "T" then some (.err .timeout) else if t = "X" then some (.err .transmission)
+          else if t = "B" then some (.err .brokenLink) else (parseHex t).map .cmd
+      match evl with
+      | some evl =>
+        let e : PeerT3.Emu Bytes := ⟨idm, pmm, sys, PeerT3.storeSvc tab⟩
+        let ending := PeerT3.cardSession e store first evl
+        let sent := match PeerT3.processCommandR e store first with
+          | .ok r => cardTrace e evl r.2.1 r.1 []
+          | .error _ => []
+        showEnd ending ++ " sent=" ++ showSent sent
+      | none => "bad-op"
+    | _, _, _ => "bad-op"
+  | _, _, _, _ => "bad-op"
+
+/-- the application side of the SNEP server from the table recorded on the real run -/
+def snepApp (tab : String) : Option PeerSnep.App :=
+  let ents : Option (List (String × String)) :=
+    if tab = "-" then some [] else
+    (tab.splitOn ",").mapM fun ent =>
+      match ent.splitOn "=" with
+      | [k, v] => some (k, v)
+      | _ => none
+  match ents with
+  | none => none
+  | some ents =>
+    let look (op : String) (o : Bytes) : Option String := (ents.find? (fun p => p.1 = op ++ ":" ++ toHex o)).map (·.2)
+    let missing : PeerSnep.SExc := .py .outOfFuel
+    some {
+      get := fun o =>
+        match look "g" o with
+        | none => .error missing
+        | some v =>
+          if v = "D" then .error .ndefDecode else if v = "V" then .error (.py .value) else if v = "E" then .error .ndefEncode
+          else match v.toList with
+            | 'c' :: r => (match (String.ofList r).toNat? with | some c => .ok (.inl c) | none => .error missing)
+            | 'd' :: r => (match parseHex (String.ofList r) with | some d => .ok (.inr d) | none => .error missing)
+            | _ => .error missing
+      put := fun o =>
+        match look "p" o with
+        | none => .error missing
+        | some v =>
+          if v = "D" then .error .ndefDecode else if v = "V" then .error (.py .value) else if v = "E" then .error .ndefEncode
+          else match v.toList with
+            | 'c' :: r => (match (String.ofList r).toNat? with | some c => .ok c | none => .error missing)
+            | _ => .error missing }
+
+def parseFrags (s : String) : Option (List Bytes) :=
+  if s = "none" then some [] else (s.splitOn ",").mapM parseHex
+
+def showFrags (l : List Bytes) : String := if l.isEmpty then "none" else ",".intercalate (l.map toHex)
+
+def showCRes : PeerSnep.CRes → String
+  | .none_ => "none" | .true_ => "true" | .false_ => "false"
+  | .data d => "data " ++ toHex d
+  | .snepError c => s!"snep {c}"
+
 def handle (line : String) : String :=
   match line.splitOn " " with
+  | ["t3g", ids, tab, st, cmd] => t3gCmd ids tab st cmd
+  | ["cardsess", ids, tab, st, first, evs] => cardCmd ids tab st first evs
+  | ["snepreq", tab, h] => match snepApp tab, parseHex h with
+    | some app, some d => showPy toHex (PeerSnep.processRequest app d) | _, _ => "bad-op"
+  | ["snepsrv", miu, mx, tab, fr] => match miu.toNat?, mx.toNat?, snepApp tab, parseFrags fr with
+    | some miu, some mx, some app, some fr =>
+      showPy showFrags (PeerSnep.serve ⟨mx, miu, app⟩ (fr.length + 1) fr []) | _, _, _, _ => "bad-op"
+  | ["snepcli", op, acc, fr] => match acc.toNat?, parseFrags fr with
+    | some acc, some fr =>
+      if op = "get" then showPy showCRes (PeerSnep.getOctets acc fr)
+      else if op = "put" then showPy showCRes (PeerSnep.putOctets fr) else "bad-op"
+    | _, _ => "bad-op"
   | ["dep", fx, b, r, h] => match flag? fx, flag? b, flag? r, parseHex h with
     | some fx, some b, some r, some f => showPy (showDep r) (decodeFrameV fx b r f) | _, _, _, _ => "bad-op"
   | ["rtox", fx, h] => match flag? fx, parseHex h with
